@@ -1,0 +1,18 @@
+//go:build verif
+// +build verif
+
+package agent
+
+import "net"
+
+// Verification hook (build tag "verif"): VerifReadGap, when set, is called by
+// agentConnection.Read after it found its buffer empty and released the lock, before it
+// waits for the receiver's notification - a harness can hold the reader there and let a
+// data message arrive in between. Add-only; the regular build has an empty verifReadGap.
+var VerifReadGap func(local, remote net.Addr)
+
+func verifReadGap(dc *agentConnection) {
+	if f := VerifReadGap; f != nil {
+		f(dc.LocalAddr(), dc.RemoteAddr())
+	}
+}
